@@ -158,7 +158,19 @@ func main() {
 	hashes := flag.Int64("indexhash", 0, "emit per-index hashes for indexes below N (determinism self-test)")
 	shrink := flag.String("shrink", "", "minimise the violation in this replay file in-process and print the result")
 	samples := flag.Int("samples", 2, "number of complete sample runs to emit")
+	enumSize := flag.Bool("enumsize", false, "print the size of the property's exhaustive enumeration and exit")
 	flag.Parse()
+	if *enumSize {
+		switch *prop {
+		case "C11":
+			fmt.Println(c11.EnumSize())
+		case "C18":
+			fmt.Println(c18.EnumSize())
+		default:
+			fmt.Println(0)
+		}
+		return
+	}
 
 	run, ok := props[*prop]
 	if !ok {
